@@ -474,3 +474,134 @@ Proof.
     + rewrite !upd_length. reflexivity.
     + intros k Hk. rewrite !nth_error_upd_other by auto. reflexivity.
 Qed.
+
+Lemma mix_from_one O st r others Q0 st' i self :
+  contracts O -> Forall wfs st ->
+  streams_of st others = [i] -> sget st r = Ok self ->
+  mix_from O st r others Q0 = Ok st' ->
+  exists o s', sget st i = Ok o /\ sget st' r = Ok s' /\ sP s' = sP o /\
+    (~ total s' == 0 -> getH O s' == getH O o + heat_of others Q0) /\
+    length st' = length st /\ (forall k, k <> r -> nth_error st' k = nth_error st k).
+Proof.
+  intros C W SS Sr H. unfold mix_from in H. rewrite SS, Sr in H. cbn [bind] in H. unfold bind in H.
+  pose proof (sget_lt _ _ _ Sr) as Lr.
+  dres H. rename a into o. dres H. rename a into s1.
+  assert (Same : (r =? i)%nat = true -> self = o).
+  { intros Eq. apply Nat.eqb_eq in Eq. subst i. congruence. }
+  destruct (copy_like_reads O self o _ s1 C (sget_wfs _ _ _ W Sr) (sget_wfs _ _ _ W E) Same E0) as [HH PP].
+  destruct (qzerob (heat_of others Q0)) eqn:ZQ.
+  - injection H as <-. exists o, s1. split; [reflexivity|]. split; [now apply sget_upd_same'|]. split; [exact PP|].
+    split; [|split].
+    + intros _. apply qzerob_true in ZQ. rewrite HH, ZQ. lra.
+    + apply upd_length.
+    + intros k Hk. now rewrite nth_error_upd_other by auto.
+  - destruct (setH O s1 (getH O s1 + heat_of others Q0)) as [sa [ea|]] eqn:SH; [discriminate|].
+    injection H as <-. exists o, sa. split; [reflexivity|]. split; [now apply sget_upd_same'|].
+    split; [rewrite (setH_P _ _ _ _ _ SH); exact PP|].
+    split; [|split].
+    + intros Hn. unfold getH at 1.
+      rewrite (set_with_roundtrip (Hmix O) (solveH O) _ _ _ (cH_homog _ C) (cH_spec _ C) SH Hn).
+      rewrite HH. reflexivity.
+    + apply upd_length.
+    + intros k Hk. now rewrite nth_error_upd_other by auto.
+Qed.
+
+(* ------------------------------------------------------------------ the lowest pressure *)
+Lemma qmin_le_l a b : qmin a b <= a.
+Proof. unfold qmin. destruct (Qle_bool a b) eqn:E; [lra|]. 
+  assert (~ a <= b) by (intros L; apply Qle_bool_iff in L; congruence). lra. Qed.
+Lemma qmin_le_r a b : qmin a b <= b.
+Proof. unfold qmin. destruct (Qle_bool a b) eqn:E; [now apply Qle_bool_iff|lra]. Qed.
+Lemma qmin_cases a b : qmin a b = a \/ qmin a b = b.
+Proof. unfold qmin. destruct (Qle_bool a b); auto. Qed.
+
+Lemma fold_qmin_spec l a :
+  fold_left qmin l a <= a /\ (forall x, In x l -> fold_left qmin l a <= x) /\
+  (fold_left qmin l a = a \/ In (fold_left qmin l a) l).
+Proof.
+  revert a. induction l as [|b l IH]; intros a; simpl.
+  - split; [lra|]. split; [intros x []|now left].
+  - destruct (IH (qmin a b)) as (L1 & L2 & L3).
+    pose proof (qmin_le_l a b). pose proof (qmin_le_r a b).
+    split; [lra|]. split.
+    + intros x [<-|I]; [lra|now apply L2].
+    + destruct L3 as [L3|L3]; [|now right; right].
+      destruct (qmin_cases a b) as [Q|Q]; rewrite L3, Q; [now left|now right; left].
+Qed.
+
+Lemma minP_spec ins P : minP ins = Ok P ->
+  (forall s, In s ins -> P <= sP s) /\ exists s, In s ins /\ sP s = P.
+Proof.
+  unfold minP. destruct ins as [|s t]; [discriminate|]. intros H; injection H as <-.
+  destruct (fold_qmin_spec (map sP t) (sP s)) as (L1 & L2 & L3). split.
+  - intros s0 [<-|I]; [exact L1|]. apply L2. now apply in_map.
+  - destruct L3 as [L3|L3].
+    + exists s. split; [now left|now rewrite L3].
+    + apply in_map_iff in L3. destruct L3 as (s0 & E & I). exists s0. split; [now right|exact E].
+Qed.
+
+(* ------------------------------------------------------------------ the two main mixing lemmas *)
+Lemma mix_energy_lemma O st r others Q0 st' ins s' :
+  contracts O -> Forall wfs st ->
+  mix_from O st r others Q0 = Ok st' ->
+  streams_of st others <> [] ->
+  sget_all st (streams_of st others) = Ok ins ->
+  sget st' r = Ok s' ->
+  ~ total s' == 0 ->
+  getH O s' == qsum (map (getH O) ins) + (Q0 + heats others).
+Proof.
+  intros C W H NE SA Sr' Hn.
+  destruct (sget st r) as [self|e] eqn:Sr; [|unfold mix_from in H; rewrite Sr in H; discriminate].
+  destruct (streams_of st others) as [|i [|j l]] eqn:SS; [congruence| |].
+  - destruct (mix_from_one O st r others Q0 st' i self C W SS Sr H) as (o & s2 & So & S2 & _ & HH & _).
+    destruct (sget_all_one _ _ _ SA) as (o' & So' & ->).
+    assert (o' = o) by congruence. subst o'. assert (s2 = s') by congruence. subst s2.
+    rewrite (HH Hn), heat_of_heats. simpl. lra.
+  - destruct (mix_from_many O st r others Q0 st' i j l self SS Sr H) as (ins' & P & sx & s2 & SA' & _ & SH & _ & S2 & _).
+    assert (ins' = ins) by congruence. subst ins'. assert (s2 = s') by congruence. subst s2.
+    unfold getH at 1.
+    rewrite (set_with_roundtrip (Hmix O) (solveH O) _ _ _ (cH_homog _ C) (cH_spec _ C) SH Hn).
+    rewrite sum_H_fold, heat_of_heats. reflexivity.
+Qed.
+
+Lemma mix_pressure_lemma O st r others Q0 st' ins s' :
+  contracts O -> Forall wfs st ->
+  mix_from O st r others Q0 = Ok st' ->
+  streams_of st others <> [] ->
+  sget_all st (streams_of st others) = Ok ins ->
+  sget st' r = Ok s' ->
+  (forall s, In s ins -> sP s' <= sP s) /\ exists s, In s ins /\ sP s = sP s'.
+Proof.
+  intros C W H NE SA Sr'.
+  destruct (sget st r) as [self|e] eqn:Sr; [|unfold mix_from in H; rewrite Sr in H; discriminate].
+  destruct (streams_of st others) as [|i [|j l]] eqn:SS; [congruence| |].
+  - destruct (mix_from_one O st r others Q0 st' i self C W SS Sr H) as (o & s2 & So & S2 & PP & _).
+    destruct (sget_all_one _ _ _ SA) as (o' & So' & ->).
+    assert (o' = o) by congruence. subst o'. assert (s2 = s') by congruence. subst s2.
+    split.
+    + intros s [<-|[]]. rewrite PP. lra.
+    + exists o. split; [now left|now rewrite PP].
+  - destruct (mix_from_many O st r others Q0 st' i j l self SS Sr H) as (ins' & P & sx & s2 & SA' & MP & SH & PX & S2 & _).
+    assert (ins' = ins) by congruence. subst ins'. assert (s2 = s') by congruence. subst s2.
+    rewrite (setH_P _ _ _ _ _ SH), PX. now apply minP_spec.
+Qed.
+
+Lemma mix_frame_lemma O st r others Q0 st' :
+  mix_from O st r others Q0 = Ok st' ->
+  length st' = length st /\ forall k, k <> r -> nth_error st' k = nth_error st k.
+Proof.
+  intros H.
+  destruct (sget st r) as [self|e] eqn:Sr; [|unfold mix_from in H; rewrite Sr in H; discriminate].
+  destruct (streams_of st others) as [|i [|j l]] eqn:SS.
+  - unfold mix_from in H. rewrite SS, Sr in H. cbn [bind] in H. injection H as <-. split.
+    + apply upd_length.
+    + intros k Hk. now rewrite nth_error_upd_other by auto.
+  - unfold mix_from in H. rewrite SS, Sr in H. cbn [bind] in H. unfold bind in H.
+    dres H. dres H.
+    destruct (qzerob (heat_of others Q0)).
+    + injection H as <-. split; [apply upd_length|]. intros k Hk. now rewrite nth_error_upd_other by auto.
+    + destruct (setH O a0 _) as [sa [ea|]]; [discriminate|]. injection H as <-.
+      split; [apply upd_length|]. intros k Hk. now rewrite nth_error_upd_other by auto.
+  - destruct (mix_from_many O st r others Q0 st' i j l self SS Sr H) as (ins0 & P0 & sx0 & s0 & _ & _ & _ & _ & _ & L & F).
+    now split.
+Qed.
